@@ -212,6 +212,18 @@ def c07_worker(res: Result, i: int, n: int) -> None:
     distinct: set[bytes] = set()
     try:
         for h in mine:
+            _history(res, h, payloads, loop, pairs_seen, distinct)
+    finally:
+        loop.close()
+    res.coverage["distinct_class_kind_pairs"] = len(pairs_seen)
+    res.coverage["distinct_streams"] = len(distinct)
+
+
+def _history(res: Result, h: int, payloads: list, loop, pairs_seen: set, distinct: set) -> None:  # noqa: ANN001
+    from kio.serial import entity_reader, entity_writer
+
+    if True:
+        if True:
             rng = common.rng_for("C07", h)
             g = gen.Gen(rng, "canonical", big_prob=0.002)
             nmsg = rng.randint(1, 12)
@@ -300,10 +312,6 @@ def c07_worker(res: Result, i: int, n: int) -> None:
             if h % 401 == 0:
                 res.sample({"history": h, "messages": case["messages"], "stream_bytes": len(expected), "prefix": len(prefix), "suffix": len(suffix),
                             "sinks": list(outputs), "sources": list(source_kinds)})
-    finally:
-        loop.close()
-    res.coverage["distinct_class_kind_pairs"] = len(pairs_seen)
-    res.coverage["distinct_streams"] = len(distinct)
 
 
 def run(prop: str, tier_: str) -> int:
@@ -325,3 +333,19 @@ def run(prop: str, tier_: str) -> int:
         "encodings' boundaries; distinct = distinct byte streams",
         floor_ok,
     )
+
+
+def replay(prop: str, path: str) -> int:
+    doc = common.load_replay(path)
+    os.environ["VERIF_SEED"] = str(doc.get("seed", 0))
+    res = Result("C07", "exploration", doc.get("tier", "quick"))
+    h = doc["case"]["history"]
+    print(f"replay C07: history {h} with seed {doc.get('seed')} ({doc['key']})")
+    loop = asyncio.new_event_loop()
+    try:
+        # all sink and source kinds are exercised when replaying
+        res.tier = "thorough"
+        _history(res, h, _payload_classes(), loop, set(), set())
+    finally:
+        loop.close()
+    return common.finish_replay(res)
